@@ -264,6 +264,55 @@ def gen_tree(rnd, big):
             "kinds": kinds, "maxlen": [0] * nfiles, "alpha": "none", "content": content}
 
 
+# byte values that may open an ordinary line without being given a meaning by the expansion of values (C10: % ` $ \ ~),
+# by white space (9..13, 32) or by the handler protocol itself (1 and 2 are the BEGIN / END markers a handler looks for)
+EXPANSION_BYTES = {ord(c) for c in "%`$\\~"}
+FIRST_BYTES = [v for v in range(3, 256) if v not in EXPANSION_BYTES and v not in (9, 10, 11, 12, 13, 32)]
+SIZES = sorted(set(n + d for n in (8, 16, 32, 64, 128, 256, 512, 1024, 2048, 4096, 8192, 20478) for d in (-1, 0, 1)))
+
+
+def _one(names, nullmode, lines):
+    return {"fam": "list", "n": 0, "regfam": "list", "nreg": 0, "names": [[ord(c) for c in n] for n in names], "nullmode": nullmode,
+            "kinds": ["ok"], "maxlen": [0], "alpha": "none", "content": [lines]}
+
+
+def value_and_size_families(tier):
+    """Deterministic direction-B inputs (validated by TLC like the random trees):
+    full-range values - every byte value as the FIRST non-blank character of a line (and as an inner and the last one), at
+    column 0, after blanks and after a tab, inside a context and at top level; keywords extended / prefixed by every letter
+    and digit; size sweep - lines of n-1, n, n+1 characters for every power of two up to 8192 and the line buffer, and files
+    of n-1, n, n+1 lines.  (The cost of validating one execution grows with the square of its calls, so the value families
+    are cut into executions of about 300 lines.)"""
+    out = []
+
+    def emit(lines, where):
+        for c0 in range(0, len(lines), 300):
+            part = lines[c0:c0 + 300]
+            out.append(_one(["A"], "first", ([L("begin A")] + part + [L("end")]) if where == "ctx" else part))
+    for where in ("ctx", "top"):
+        lines = []
+        for v in FIRST_BYTES:
+            body = [v, 107, 32, 114]                                   # <v>k r
+            for pad in ([], [32, 32], [9], [32, 9, 32]):
+                lines.append({"x": 0, "t": pad + body + pad})
+            lines.append({"x": 0, "t": [107, 32, v, 32, 114]})         # inner
+            lines.append({"x": 0, "t": [32, 107, 32, 114, v]})         # last
+        emit(lines, where)
+    lines = []
+    for c in "abcdefghijklmnopqrstuvwxyzABCDEFGHIJKLMNOPQRSTUVWXYZ0123456789_-.":
+        for w in ("end", "begin", "en", "begi"):
+            lines += [L(w + c), L(c + w), L("  " + w + c + " x"), L(w + c + " A")]
+    emit(lines, "top")
+    # sizes of lines
+    lines = [L("begin A")] + [{"x": n, "t": []} for n in SIZES] + [{"x": n - 3, "t": [32, 121, 32]} for n in SIZES] + [L("end"), L("tail")]
+    out.append(_one(["A"], "first", lines))
+    # sizes of files (number of lines)
+    ns = [7, 8, 9, 63, 64, 65, 255, 256, 257, 1024] + ([1023, 1025, 4095, 4096, 4097] if tier == "thorough" else [])
+    for n in ns:
+        out.append(_one(["A"], "last", [L("begin A")] + [L("l%d" % (i % 10)) for i in range(n - 2)] + [L("end")]))
+    return out
+
+
 def tree_script(sid, cfg):
     out = ["S %d" % sid, "init = ? ?"]
     for f, (k, lines) in enumerate(zip(cfg["kinds"], cfg["content"]), 1):
@@ -282,7 +331,9 @@ def trace_validation(ctx, exe):
     from vlib import trace
     rnd = random.Random(ctx.seed)
     n = 300 if ctx.tier == "quick" else 3000
-    cfgs = [gen_tree(rnd, big=(k % 4 == 0)) for k in range(n)]
+    fam = value_and_size_families(ctx.tier)
+    cfgs = fam + [gen_tree(rnd, big=(k % 4 == 0)) for k in range(n)]
+    ctx.cov["value_and_size_family_executions"] = len(fam)
     scripts = [tree_script(k + 1, c) for k, c in enumerate(cfgs)]
     texts = [s for s, _ in scripts]
     fails, recs, ns, nt = run_scripts(exe, [], texts, ctx.rundir, jobs=4, tag="rec")
@@ -311,7 +362,7 @@ def trace_validation(ctx, exe):
         ncalls += sum(len(e["post"]["calls"]) for e in evs[:pos])
         if not ok:
             sid, ev = part[pos]
-            ctx.report("trace-rejected parse [fam=random null=%s]" % ev["cfg"]["nullmode"],
+            ctx.report("trace-rejected parse [fam=%s null=%s]" % ("value/size" if sid <= len(fam) else "random", ev["cfg"]["nullmode"]),
                        "TLC rejects the recorded execution %d (script %d): observed ret=%s calls=%s snap=%s" % (
                            c0 + pos, sid, ev["ret"], json.dumps(ev["post"]["calls"])[:400], ev["post"]["snap"]),
                        {"harness_args": [], "script_text": texts[sid - 1], "event": ev, "event_index": c0 + pos, "trace": path})
